@@ -350,7 +350,7 @@ def obligations(tier):
     for p0 in range(NTHUNK):
         gpre = '(g0 == 1 or g0 == 2 or g0 == 4 or g0 == 6 or g0 == 7)' if q else '0 <= g0 < %d' % NTOGGLE
         obs.append(Ob(history2, fixed={'p0': p0}, pre='0 <= p1 < %d and %s' % (NTHUNK, gpre),
-                      name='history2_%d' % p0, timeout=200))
+                      name='history2_%d' % p0, timeout=400))
     # length 3, concrete data, checked against fresh-interpreter constants: first call, a toggle, the SAME spec again or
     # another thunk, a second toggle, any thunk
     p0s = (0, 1, 4, 8, 15) if q else (0, 1, 4, 8, 12, 15, 16, 18, 19)     # sized: each obligation replays 160 three-call histories
